@@ -434,6 +434,59 @@ def check_portable(c, case):
             return
 
 
+def check_portable_without_transition_shocks(c, seed):
+    """to_portable() raises for every model with transition shocks (known finding), which hides the rest of the portable round
+    trip. Models whose only shocks are measurement shocks do go through: names, kinds (through the names per kind), log status,
+    equations, flags, and the parameter values, stds and steady values of EVERY variant must come back."""
+    import irispie as ir
+    g = np.random.default_rng(seed)
+    n = int(g.integers(1, 4))
+    nv = int(g.integers(1, 4))
+    flat = bool(g.random() < 0.6)
+    logs = [bool(g.random() < 0.3) for _ in range(n)]
+    lines = ["!transition-variables", "    " + ", ".join(f"x{i}" for i in range(n)), "!measurement-variables", "    y0",
+             "!measurement-shocks", "    w0", "!parameters", "    " + ", ".join([f"rho{i}" for i in range(n)] + [f"c{i}" for i in range(n)])]
+    if any(logs):
+        lines += ["!log-variables", "    " + ", ".join(f"x{i}" for i in range(n) if logs[i])]
+    lines.append("!transition-equations")
+    for i in range(n):
+        lines.append(f"    x{i} = x{i}[-1]^rho{i}*exp(c{i});" if logs[i] else f"    x{i} = rho{i}*x{i}[-1] + c{i};")
+    lines += ["!measurement-equations", "    y0 = " + " + ".join(f"0.5*x{i}" for i in range(n)) + " + w0;"]
+    src = "\n".join(lines) + "\n"
+    case = {"kind": "portable-shockless", "seed": int(seed), "source": src}
+    try:
+        with rt.quiet():
+            m = ir.Simultaneous.from_string(src, linear=False, flat=flat)
+            if nv > 1:
+                m.alter_num_variants(nv)
+            vals = {}
+            for i in range(n):
+                vals[f"rho{i}"] = [float(np.round(g.uniform(0.2, 0.8), 3)) for _ in range(nv)]
+                vals[f"c{i}"] = [float(np.round(g.uniform(0.1, 0.9), 3)) for _ in range(nv)]
+            vals["std_w0"] = [float(np.round(g.uniform(0.1, 2.0), 3)) for _ in range(nv)]
+            m.assign(**{k: (v if nv > 1 else v[0]) for k, v in vals.items()})
+            m.assign(**{f"x{i}": (1.0, 1.0 if logs[i] else 0.0) for i in range(n)})
+            m.solve_steady()
+    except Exception as exc:
+        c.inconc(f"portable-shockless:build-failed:{type(exc).__name__}")
+        return
+    c.event("portable", "roundtrip:no-transition-shocks", key=("portable-shockless", n, nv, flat, any(logs)), nontrivial=nv >= 2)
+    try:
+        p = m.to_portable()
+        import json as _json
+        p = _json.loads(_json.dumps(p))          # the portable form is meant to travel as JSON
+        m2 = ir.Simultaneous.from_portable(p)
+    except Exception as exc:
+        c.violation(f"portable:shockless-roundtrip:raised:{type(exc).__name__}", f"{type(exc).__name__}: {str(exc)[:200]}", case=case)
+        return
+    a, b = observe(m), observe(m2)
+    for part in ("names", "nvar", "logly", "equations", "flags", "params", "stds"):   # (steady values are not among the things promised)
+        ok, why = same(a[part], b[part], tol=1e-12)
+        if not ok:
+            c.violation(f"portable:roundtrip:{part}-differ", f"{part}: {why} ({nv} variants)", case=case)
+            return
+
+
 # ------------------------------------------------------------------------------
 # Sequential and RedVAR round trips
 # ------------------------------------------------------------------------------
@@ -651,6 +704,8 @@ def run_case(c, case):
     with c.running(case):
         if case["kind"] == "sequential":
             run_sequential(c, case)
+        elif case["kind"] == "portable-shockless":
+            check_portable_without_transition_shocks(c, case["seed"])
         elif case["kind"] == "redvar":
             run_redvar(c, case)
         else:
@@ -696,6 +751,11 @@ def shard(c):
             continue
         if case is None:
             continue
+        if i % 4 == 0:
+            try:
+                run_case(c, {"kind": "portable-shockless", "seed": int(rng.integers(0, 2 ** 31))})
+            except Exception as exc:
+                c.inconc(f"harness:case-error:{type(exc).__name__}")
         if case["kind"] == "history":
             case["check_portable"] = (i % 10 == 0)   # the portable round trip does not depend on the history: sampled
         try:
